@@ -41,7 +41,7 @@ var props = map[string]propCfg{
 		Assumptions: commonAssumptions,
 	},
 	"C10": {
-		Require: []string{"filter_outputs_checked", "process_outputs_checked", "record_files_checked", "display_logs_checked", "outputs_judged_by_construction", "live_sessions"},
+		Require: []string{"filter_outputs_checked", "process_outputs_checked", "record_files_checked", "display_logs_checked", "outputs_judged_by_construction", "live_sessions", "sessions_with_one_write_held_up"},
 		BinRace: true, QuickBatches: 8, ThoroughBatches: 48, Parallel: 8, Bins: []string{"rtcmfilter"}, AppTests: []string{"rtcmfilter"}, Level: "exploration", Floor: 40,
 		Rule:        "(a) in process, through a test file added to apps/rtcmfilter at check time by the build overlay: HandleMessages(start, reader, writer, config) with all four display/record combinations, paced/chunked readers, writers that are fast / yielding / sleeping, GOMAXPROCS in {1,2,4,16}, race detector on; the written bytes are compared at quiescence, defined on goroutine states (every goroutine with a frame in apps/rtcmfilter/main.go parked in a channel receive or gone, no write in flight, call counter stable). (b) the real binary built from the current tree with the hook overlay and the race detector: stdin as a file or a pipe written in random chunks with gaps, stdout read fast or through a 4 kB pipe read slowly, yield/sleep hook profiles, files read after exit as the date-ordered concatenation of the fresh log directory. Oracle: for inputs built from known segments (clean streams, well-formed decodable messages incl. SBAS/QZSS/NavIC and illegal timestamps) the expected output is the concatenation of the generator's own frame segments - independent of the code; for captured batches and hostile streams it is the concatenation of the typed messages of the same build's sequential framing, each required to be a frame by the independent predicate; the record file must hold the same bytes; readable log has one 'Frame length N bytes:' entry per delivered message. Inputs: captured batches, clean streams ending in a frame, hostile streams, well-formed decodable messages, truncated tails. Non-trivial: >= 2 messages delivered. Distinct by hash of the case.",
 		Assumptions: commonAssumptions,
@@ -59,7 +59,7 @@ var props = map[string]propCfg{
 		Assumptions: commonAssumptions,
 	},
 	"C18": {
-		Require: []string{"sequences_enumerated", "linearizable_histories", "long_run_additions", "stress_operations"},
+		Require: []string{"sequences_enumerated", "linearizable_histories", "long_run_additions", "stress_operations", "held_snapshots_rechecked"},
 		Race:    true, QuickBatches: 8, ThoroughBatches: 64, Parallel: 8, Level: "exploration", Floor: 500, MayBeExhaustive: true,
 		Rule:        "(1) exhaustive: ALL sequences over {Add, snapshot} of length 14 (quick) / 18 (thorough) for every capacity 1..8, each step compared with a 'last N of a list' model and len(Items) read under the queue's own RLock; (2) long runs of 10^5 (quick) / 10^7 (thorough) additions for capacities {1,2,3,5,8,20} with EVERY snapshot checked; (3) tight-loop stress: 1-2 adders and 1-3 snapshot readers, 20000 operations each without yields, every snapshot within capacity and in arrival order per adder, termination judged logically (deadlock = every repository goroutine blocked and no progress for six seconds); (4) concurrent histories: capacities {1,2,3,8}, 1-3 adders x 1-3 snapshot readers, 10-30 operations each, unique message ids, call/return stamps from one atomic counter recorded at the client boundary, checked with porcupine (linearizability against the list model; timeout = inconclusive), size bound checked online, race detector on, GOMAXPROCS in {2,4,16}. Non-trivial: more additions than the capacity (sequential) / at least two concurrent clients (concurrent). Distinct by (capacity, sequence) or hash of the history parameters.",
 		Assumptions: append([]string{"porcupine v1.3.0 decides linearizability of the recorded histories correctly"}, commonAssumptions...),
@@ -77,13 +77,13 @@ var props = map[string]propCfg{
 		Assumptions: commonAssumptions,
 	},
 	"C06": {
-		Require:      []string{"times_compared", "illegal_timestamps_reported_as_errors"},
+		Require:      []string{"times_compared", "illegal_timestamps_reported_as_errors", "histories_through_the_file_handler"},
 		QuickBatches: 8, ThoroughBatches: 64, Parallel: 16, Level: "exploration", Floor: 100,
 		Rule:        "histories generated truth first: a start time T (any of 7 time zones; half of them within +-2 s, a quarter of those within +-2 ms, of a constellation's week rollover), then per participating constellation (random non-empty subset of GPS, GLONASS, Galileo, BeiDou) true UTC observation instants u1 <= u2 <= ... with u1 >= T inside T's constellation week and gaps in {0, 1 ms, seconds, hours, up to 6 d - 1 ms, exactly on/around the next rollover}, spanning 0..many rollovers; each instant is converted to its 30-bit timestamp by pure time arithmetic (no rollover logic in the oracle); constellations and MSM4/MSM7 types are interleaved at random and illegal timestamps (>= 7 d of ms; GLONASS day 7 or >= 24 h of ms) are spliced in anywhere. The frames go through handler.GetMessage on one handler, a third of the histories through the stream handler. Every reported SentAt and StartOfWeek is parsed back and must equal the true instant / true week start; illegal timestamps must come back as errors without disturbing later messages. Non-trivial: >=2 constellations cross a rollover, or an illegal timestamp is followed by valid messages. Distinct by hash of the history.",
 		Assumptions: commonAssumptions,
 	},
 	"C17": {
-		Require: []string{"times_compared", "display_processes_checked", "displayed_times_compared"},
+		Require: []string{"times_compared", "display_processes_checked", "displayed_times_compared", "histories_through_the_file_handler"},
 		BinRace: true, Bins: []string{"displayrtcm3"},
 		QuickBatches: 8, ThoroughBatches: 64, Parallel: 16, Level: "exploration", Floor: 100,
 		Rule:        "as C06, but the first observation of each constellation is drawn anywhere in the constellation week that contains the start time T: the first instant of the week, T itself, 1 ms / up to 3 s before T, the last millisecond of the week, or uniformly - followed by a C06-style continuation across rollovers. Non-trivial: some constellation's first observation is earlier than T. Distinct by hash of the history.",
@@ -138,7 +138,7 @@ var props = map[string]propCfg{
 		Assumptions: commonAssumptions,
 	},
 	"C12": {
-		Require:      []string{"single_bit_flips", "byte_overwrites", "random_faults", "neighbour_time_fields_compared", "repeated_frame_faults", "rollover_neighbour_faults", "stalled_runs"},
+		Require:      []string{"single_bit_flips", "byte_overwrites", "random_faults", "neighbour_time_fields_compared", "repeated_frame_faults", "rollover_neighbour_faults", "stalled_runs", "short_victim_streams"},
 		QuickBatches: 8, ThoroughBatches: 64, Parallel: 16, Level: "fault_enumeration", Floor: 1000,
 		Rule:        "streams of 2..5 short frames and 0xD3-free junk; every frame in turn is the victim; faults: every single-bit flip of payload and CRC (exhaustive for the short frames), every byte overwritten by 0xD3 and by 0x00, random multi-bit sets, bursts of 2..32 bits, CRC-only and payload-only corruption, plus random faults in large frames; the 3-byte leader is never touched; corruptions that keep the CRC valid are skipped and counted. Expected sequence by construction: the victim as one non-RTCM message with exactly its corrupted bytes, every other segment unchanged. Non-trivial: the victim has a successor frame. Distinct by hash of (faulted stream, victim index).",
 		Assumptions: commonAssumptions,
